@@ -290,6 +290,10 @@ func dischargeAll(results []*Result, outDir string, timeoutS int, workers int) m
 				if shortObligation != nil && shortObligation(j.o.Name) && tmo > 6 {
 					tmo = 6
 				}
+				if j.o.IsCover && tmo > 4 {
+					// vacuity guards: only `unsat` (contradictory assumptions) matters
+					tmo = 4
+				}
 				if itext != "" {
 					ifile := strings.TrimSuffix(file, ".smt2") + ".inst.smt2"
 					os.WriteFile(ifile, []byte(itext), 0o644)
